@@ -101,7 +101,10 @@ def load_findings(pid):
 def finding_matches(f, obname, witness_sig):
     """A known finding is identified by obligation name and a witness signature (substring match on the
     stable signature string) so that a different failure of the same property is still reported."""
+    import re
     if f.get('obligation') and f['obligation'] != obname: return False
+    if f.get('obligation_regex') and not re.fullmatch(f['obligation_regex'], obname): return False
+    if f.get('witness_regex') and not (witness_sig is not None and re.search(f['witness_regex'], witness_sig)): return False
     sig = f.get('witness_signature')
     return sig is None or (witness_sig is not None and sig in witness_sig)
 
